@@ -17,6 +17,9 @@ func main() {
 	rep.Rule = "behaviours of DBFile.tla (local commits in both journal modes, rollbacks, checkpoints) interleaved with retention sweeps of zero-length retention at every idle point; after every step that ends a transaction and after every sweep the ltx directory is listed and decoded: every file verifies, min = previous max + 1, pre = previous post, last file = current position, nothing but transaction files and *.tmp; non-trivial = at least one transaction was captured"
 	rep.Assumptions = []string{"replicated applies, snapshots and backup acknowledgements are covered by the cluster checks (C01, C06, C14) with the same chain monitor"}
 	defer core.Cleanup()
+	if t3.MaybeReplay(rep, args, map[string]bool{"C09": true}) {
+		rep.Finish()
+	}
 	dbreplay.Post = func() { t3.Stage(rep, args, map[string]bool{"C09": true}) }
 	// replicated applies, snapshots, restarts and drops: the cluster scripts with this property's monitors
 	repl.Main(rep, args, map[string]bool{"C09": true}, []repl.Stage{
